@@ -20,7 +20,7 @@ def hx(b):
 
 
 # ---------------------------------------------------------------------------------- addresses
-IFACES = ["lo", "eth0", "br-lan", "wlan0", "eth0.100", "abcdefghijklmno"]
+IFACES = ["lo", "eth0", "br-lan", "wlan0", "eth0.100", "abcdefghijklmno", "eth0:1"]
 BAD_IFACES = ["nope0", "abcdefghijklmnop", "eth0/1", "", "99", "0"]
 
 
